@@ -15,7 +15,8 @@ EXPLANATION = (
     "dropped later cannot cancel a newer leader; (DROP) the future's destructor cancels whenever the key is still "
     "there; (WAIT) a waiter returns Pending only after arranging a wake-up, maps a closed channel to the "
     "leader-cancelled error and returns the received payload; (SHARE) clones share the in-flight map. Not "
-    "decided: wall-clock promptness; that distinct keys never meet (map key equality, trusted).")
+    "decided: wall-clock promptness; that distinct keys never meet (map key equality, trusted)."
+    ' Disarming a registration guard (`guard.key.take()`) is modelled: from there to the successor guard nobody owns the obligation. (ONLY-OWN-KEY) no bulk operation (retain/clear/drain) on the in-flight registry.')
 RULE = "one obligation per lock region, per wrapped-call site, per exit class of the leader path, per take/complete/cancel site, per Pending return"
 TRUSTED = ["parking_lot::Mutex", "tokio broadcast channel", "hashbrown::HashMap", "may-unwind policy table"]
 ASSUMPTIONS = []
